@@ -7,7 +7,7 @@ CONSTANTS
   ConsumerSet = {"c1", "c2"}
   Coords = {"A", "X"}
   OpKinds = {"CreateStream", "DeleteStream", "CreateGroup", "JoinGroup", "LeaveGroup", "ChangeCoordinator"}
-  Variants = {"plain", "custom"}
+  Variants = {"custom"}
   MaxOps = 5
   MaxSnaps = 1
   MaxRestarts = 2
